@@ -635,3 +635,154 @@ Proof.
   intros H. refine (conj (iso_f_skel _ _ H) (conj (iso_f_dids _ _ H) (conj (iso_f_pre _ _ H) _))).
   exact (iso_f_clone_partition _ _ H).
 Qed.
+
+(* ------------------------------------------------------------------ *)
+(* Which inputs from_dict refuses.  An item is well formed when its data can
+   be read and its data_id entry is usable; its effective id is the data_id
+   entry or, without one, calc_data_id of the data.  For well-formed inputs:
+   from_dict succeeds iff no two sibling items have one effective id, and the
+   only error is UniqueConstraintError. *)
+Section Refusal.
+  Variables (dd : dmapper) (calc : info -> did).
+
+  Definition eff (p : pt) : option did :=
+    match p with
+    | PT d _ => match dd (dget k_data d) with
+                | inl i => match did_for calc (dget k_data_id d) i with inl dv => Some dv | inr _ => None end
+                | inr _ => None
+                end
+    | PBad => None
+    end.
+
+  Inductive wf_pt : pt -> Prop :=
+  | wf_PT : forall d kids dv, eff (PT d kids) = Some dv -> Forall wf_pt kids -> wf_pt (PT d kids).
+
+  Inductive uniq_pt : pt -> Prop :=
+  | uniq_PT : forall d kids, NoDup (map eff kids) -> Forall uniq_pt kids -> uniq_pt (PT d kids).
+
+  Lemma eff_inv d kids dv : eff (PT d kids) = Some dv ->
+    exists i, dd (dget k_data d) = inl i /\ did_for calc (dget k_data_id d) i = inl dv.
+  Proof.
+    cbn [eff]. destruct (dd (dget k_data d)) as [i|e]; [|discriminate].
+    destruct (did_for calc (dget k_data_id d) i) as [x|e] eqn:E; [|discriminate].
+    intros H. injection H as <-. exists i. split; [reflexivity|exact E].
+  Qed.
+
+  (* success: shape of the result *)
+  Definition ok_goal (p : pt) : Prop :=
+    wf_pt p -> uniq_pt p -> forall seen dv, eff p = Some dv -> ~ In dv seen ->
+    exists t, fd_item dd calc p seen = inl t /\ rdid t = dv.
+
+  Lemma fd_loop_ok : forall l, Forall ok_goal l -> Forall wf_pt l -> Forall uniq_pt l -> NoDup (map eff l) ->
+    forall seen, (forall dv, In (Some dv) (map eff l) -> ~ In dv seen) ->
+    exists f, fd_loop dd calc l seen = inl f /\ map (fun t => Some (rdid t)) f = map eff l.
+  Proof.
+    induction l as [|p ps IH]; intros HP WF UQ ND seen Hs.
+    - exists []. split; reflexivity.
+    - inversion HP as [|p0 ps0 Pp Pps]; subst. inversion WF as [|p1 ps1 Wp Wps]; subst.
+      inversion UQ as [|p2 ps2 Up Ups]; subst. inversion ND as [|e0 l0 Nin ND']; subst.
+      inversion Wp as [d kids dv Ee Wk]; subst.
+      destruct (Pp Wp Up seen dv Ee) as (t & E1 & Et).
+      { apply Hs. left. exact Ee. }
+      destruct (IH Pps Wps Ups ND' (seen ++ [rdid t])) as (ts & E2 & M).
+      { intros x Hx Hin. apply in_app_or in Hin as [Hin|[<-|[]]].
+        - apply (Hs x); [now right|assumption].
+        - apply Nin. rewrite Ee, <- Et. exact Hx. }
+      exists (t :: ts). split.
+      + cbn [fd_loop]. now rewrite E1, E2.
+      + cbn [map]. now rewrite M, Et, Ee.
+  Qed.
+
+  Lemma fd_item_ok : forall p, ok_goal p.
+  Proof.
+    induction p as [|d kids IH] using pt_ind'; intros WF UQ seen dv Ee Nin.
+    - discriminate.
+    - inversion WF as [d0 k0 dv0 _ Wk]; subst. inversion UQ as [d1 k1 ND Uk]; subst.
+      destruct (eff_inv _ _ _ Ee) as (i & E1 & E2).
+      rewrite fd_item_PT, E1, E2, (existsb_did_false _ _ Nin).
+      destruct (fd_loop_ok kids IH Wk Uk ND []) as (ch & E & _); [intros x _ []|].
+      rewrite E. eexists. split; reflexivity.
+  Qed.
+
+  (* failure: only UniqueConstraintError *)
+  Definition err_goal (p : pt) : Prop :=
+    wf_pt p -> forall seen e, fd_item dd calc p seen = inr e -> e = E_UNIQUE.
+
+  Lemma fd_loop_err : forall l, Forall err_goal l -> Forall wf_pt l ->
+    forall seen e, fd_loop dd calc l seen = inr e -> e = E_UNIQUE.
+  Proof.
+    induction l as [|p ps IH]; intros HP WF seen e E; [discriminate|].
+    inversion HP as [|p0 ps0 Pp Pps]; subst. inversion WF as [|p1 ps1 Wp Wps]; subst.
+    cbn [fd_loop] in E. destruct (fd_item dd calc p seen) as [t|e1] eqn:E1.
+    - destruct (fd_loop dd calc ps (seen ++ [rdid t])) as [ts|e2] eqn:E2; [discriminate|].
+      injection E as <-. eapply IH; eassumption.
+    - injection E as <-. eapply Pp; eassumption.
+  Qed.
+
+  Lemma fd_item_err : forall p, err_goal p.
+  Proof.
+    induction p as [|d kids IH] using pt_ind'; intros WF seen e E.
+    - inversion WF.
+    - inversion WF as [d0 k0 dv Ee Wk]; subst. destruct (eff_inv _ _ _ Ee) as (i & E1 & E2).
+      rewrite fd_item_PT, E1, E2 in E.
+      destruct (existsb (did_eqb dv) seen); [now injection E as <-|].
+      destruct (fd_loop dd calc kids []) as [ch|e1] eqn:El; [discriminate|].
+      injection E as <-. eapply fd_loop_err; eassumption.
+  Qed.
+
+  (* success implies the input had unique sibling ids *)
+  Definition conv_goal (p : pt) : Prop :=
+    forall seen t, fd_item dd calc p seen = inl t -> eff p = Some (rdid t) /\ uniq_pt p.
+
+  Lemma fd_loop_conv : forall l, Forall conv_goal l ->
+    forall seen f, fd_loop dd calc l seen = inl f ->
+    map eff l = map (fun t => Some (rdid t)) f /\ Forall uniq_pt l.
+  Proof.
+    induction l as [|p ps IH]; intros HP seen f E.
+    - cbn in E. injection E as <-. split; [reflexivity|constructor].
+    - inversion HP as [|p0 ps0 Pp Pps]; subst. cbn [fd_loop] in E.
+      destruct (fd_item dd calc p seen) as [t|e] eqn:E1; [|discriminate].
+      destruct (fd_loop dd calc ps (seen ++ [rdid t])) as [ts|e] eqn:E2; [|discriminate].
+      injection E as <-. destruct (Pp _ _ E1) as (A1 & A2). destruct (IH Pps _ _ E2) as (B1 & B2).
+      split; [cbn [map]; now rewrite A1, B1|constructor; assumption].
+  Qed.
+
+  Lemma fd_item_conv : forall p, conv_goal p.
+  Proof.
+    induction p as [|d kids IH] using pt_ind'; intros seen t E.
+    - discriminate.
+    - rewrite fd_item_PT in E. cbn [eff].
+      destruct (dd (dget k_data d)) as [i0|e]; [|discriminate].
+      destruct (did_for calc (dget k_data_id d) i0) as [dv|e]; [|discriminate].
+      destruct (existsb (did_eqb dv) seen); [discriminate|].
+      destruct (fd_loop dd calc kids []) as [ch|e] eqn:El; [|discriminate].
+      injection E as <-. split; [reflexivity|].
+      destruct (fd_loop_conv kids IH _ _ El) as (M & U).
+      constructor; [|exact U]. rewrite M.
+      destruct (fd_loop_safe dd calc kids (proj2 (Forall_forall _ _) (fun p _ => fd_item_safe dd calc p)) _ _ El) as (ND & _ & _).
+      clear -ND. rewrite <- (map_map rdid Some). apply FinFun.Injective_map_NoDup; [|exact ND].
+      intros a b H. now injection H.
+  Qed.
+
+  Definition uniq_items (obj : list jv) : Prop :=
+    NoDup (map eff (map parse obj)) /\ Forall uniq_pt (map parse obj).
+
+  Theorem from_dict_refusal next obj : Forall wf_pt (map parse obj) ->
+    ((exists f, from_dict dd calc next obj = inl f) <-> uniq_items obj) /\
+    (forall e, from_dict dd calc next obj = inr e -> e = E_UNIQUE).
+  Proof.
+    intros WF. unfold from_dict, uniq_items. split; [split|].
+    - intros (f & E). destruct (fd_loop dd calc (map parse obj) []) as [f0|e] eqn:El; [|discriminate].
+      destruct (fd_loop_conv _ (proj2 (Forall_forall _ _) (fun p _ => fd_item_conv p)) _ _ El) as (M & U).
+      split; [|exact U]. rewrite M.
+      destruct (fd_loop_safe dd calc _ (proj2 (Forall_forall _ _) (fun p _ => fd_item_safe dd calc p)) _ _ El) as (ND & _ & _).
+      clear -ND. rewrite <- (map_map rdid Some). apply FinFun.Injective_map_NoDup; [|exact ND].
+      intros a b H. now injection H.
+    - intros (ND & U).
+      destruct (fd_loop_ok _ (proj2 (Forall_forall _ _) (fun p _ => fd_item_ok p)) WF U ND []) as (f & E & _); [intros x _ []|].
+      rewrite E. eexists. reflexivity.
+    - intros e E. destruct (fd_loop dd calc (map parse obj) []) as [f0|e0] eqn:El; [discriminate|].
+      injection E as <-. eapply fd_loop_err; [|exact WF|exact El].
+      apply Forall_forall. intros p _. apply fd_item_err.
+  Qed.
+End Refusal.
